@@ -247,6 +247,18 @@ func (f *fam[T]) Eval(seq []int, reps int, st *stats) []failure {
 				add("same-chunks-differ", e.name, "%s(%s) = %s, but concatenating the very same chunk objects a second time gives %s (first time %s): the result is not a function of the chunk sequence",
 					e.name, f.labels(seq), ref.show(), b.show(), a.show())
 			}
+			// ... and the chunk objects are still the chunks that were produced: every other holder of the same pointers
+			// (the other copies of the stream, a reader that takes a prefix only) must see the sequence it was given
+			if a.pan == "" && b.pan == "" {
+				fresh := f.build(seq)
+				for i := range objs {
+					if got, want := render(objs[i]), render(fresh[i]); got != want {
+						add("same-chunks-differ", e.name, "%s(%s) wrote into chunk %d of its input: it now reads %s, it was produced as %s (every other reader of the same chunk objects sees another chunk sequence than the one produced)",
+							e.name, f.labels(seq), i, got, want)
+						break
+					}
+				}
+			}
 		}
 		if e.sameAs != "" {
 			if o, ok := refs[e.sameAs]; ok && o.stable && o.r.pan == "" && o.canon != refCanon {
